@@ -61,6 +61,8 @@ fn main() {
             "C14" => props::c14::replay(&ctx, &v),
             "C15" => props::c15::replay(&ctx, &v),
             "C16" => props::c16::replay(&ctx, &v),
+            "C17" => props::c17::replay(&ctx, &v),
+            "C18" => props::c18::replay(&ctx, &v),
             _ => {
                 eprintln!("unknown property {prop}");
                 std::process::exit(2);
@@ -80,6 +82,8 @@ fn main() {
             "C14" => props::c14::run(&ctx),
             "C15" => props::c15::run(&ctx),
             "C16" => props::c16::run(&ctx),
+            "C17" => props::c17::run(&ctx),
+            "C18" => props::c18::run(&ctx),
             _ => {
                 eprintln!("unknown property {prop}");
                 std::process::exit(2);
